@@ -244,3 +244,122 @@ def pat_bindings(p, out=None):
         if isinstance(p.get(key), dict) and k != "bind":
             pat_bindings(p[key], out)
     return out
+
+
+def alpha(n, ren=None):
+    """dump() with local variable names replaced by their order of first appearance (alpha-equivalence): renaming a
+    local in one copy of duplicated code is not a difference"""
+    import re
+    s = dump(n, ren)
+    names = {}
+    for m, _ in walk(n):
+        if m.get("k") == "path" and m.get("res") == "local":
+            names.setdefault(m["name"], None)
+        for key in ("pat",):
+            if isinstance(m.get(key), dict):
+                for nm, _l in pat_bindings(m[key]):
+                    names.setdefault(nm, None)
+        if m.get("k") == "match":
+            for a in m["arms"]:
+                for nm, _l in pat_bindings(a["pat"]):
+                    names.setdefault(nm, None)
+        if m.get("k") == "closure":
+            for p in m.get("params", []):
+                for nm, _l in pat_bindings(p):
+                    names.setdefault(nm, None)
+    # order of first textual appearance
+    order = sorted(names, key=lambda nm: (re.search(r"(?<![A-Za-z0-9_.])%s(?![A-Za-z0-9_])" % re.escape(nm), s) or re.search("$", s)).start())
+    for i, nm in enumerate(order):
+        s = re.sub(r"(?<![A-Za-z0-9_.])%s(?![A-Za-z0-9_])" % re.escape(nm), "v%d" % i, s)
+    return s
+
+
+def dump(n, ren=None, depth=0):
+    """canonical structural rendering of a whole HIR subtree (statements included); `ren` renames rendered paths
+    (used by the sibling-diff rule P9)"""
+    if n is None:
+        return ""
+    if depth > 40:
+        return "…"
+    k = n.get("k")
+
+    def d(x):
+        return dump(x, ren, depth + 1)
+    if k == "block":
+        parts = [d(s) for s in n.get("stmts", [])]
+        if "expr" in n:
+            parts.append(d(n["expr"]))
+        return "{" + "; ".join(parts) + "}"
+    if k == "let":
+        s = "let %s" % pat_str(n["pat"])
+        if "init" in n:
+            s += " = " + d(n["init"])
+        if "else" in n:
+            s += " else " + d(n["else"])
+        return s
+    if k in ("semi", "expr"):
+        return d(n["e"])
+    if k == "if":
+        s = "if %s %s" % (d(n["cond"]), d(n["then"]))
+        if "else" in n:
+            s += " else " + d(n["else"])
+        return s
+    if k == "letx":
+        return "let %s = %s" % (pat_str(n["pat"]), d(n["init"]))
+    if k == "match":
+        return "match %s {%s}" % (d(n["scrut"]), ", ".join("%s => %s" % (pat_str(a["pat"]), d(a["body"])) for a in n["arms"]))
+    if k == "for":
+        return "for %s in %s %s" % (pat_str(n["pat"]), d(n["iter"]), d(n["body"]))
+    if k == "while":
+        return "while %s %s" % (d(n["cond"]), d(n["body"]))
+    if k == "loop":
+        return "loop " + d(n["body"])
+    if k == "try":
+        return d(n["e"]) + "?"
+    if k == "ret":
+        return "return " + (d(n["e"]) if "e" in n else "")
+    if k == "break":
+        return "break"
+    if k == "continue":
+        return "continue"
+    if k == "assign":
+        return "%s = %s" % (d(n["l"]), d(n["r"]))
+    if k == "assignop":
+        return "%s %s= %s" % (d(n["l"]), n["op"], d(n["r"]))
+    if k in ("path", "field"):
+        s = path_str(n) or "?"
+        if ren:
+            for a, b in ren:
+                if s == a or s.startswith(a + "."):
+                    s = b + s[len(a):]
+        return s
+    if k == "addrof":
+        return d(n["e"])
+    if k == "un":
+        if n.get("op") == "Deref":
+            return d(n["e"])
+        return {"Not": "!", "Neg": "-"}.get(n.get("op"), n.get("op")) + d(n["e"])
+    if k == "bin":
+        return "(%s %s %s)" % (d(n["l"]), n["op"], d(n["r"]))
+    if k == "cast":
+        return "%s as %s" % (d(n["e"]), n.get("ty"))
+    if k == "mcall":
+        return "%s.%s(%s)" % (d(n["recv"]), n["m"], ", ".join(d(a) for a in n["args"]))
+    if k == "call":
+        fn = (n.get("fn") or "?").split("::")
+        return "%s(%s)" % ("::".join(fn[-2:]), ", ".join(d(a) for a in n["args"]))
+    if k == "index":
+        return "%s[%s]" % (d(n["e"]), d(n["i"]))
+    if k == "tup":
+        return "(%s)" % ", ".join(d(a) for a in n["es"])
+    if k == "array":
+        return "[%s]" % ", ".join(d(a) for a in n["es"])
+    if k == "struct":
+        return "%s{%s}" % ((n.get("def") or "?").split("::")[-1], ", ".join("%s: %s" % (f["name"], d(f["e"])) for f in n["fields"]))
+    if k == "closure":
+        return "|%s| %s" % (", ".join(pat_str(p) for p in n.get("params", [])), d(n["body"]))
+    if k == "lit":
+        return str(n.get("val"))
+    if k == "repeat":
+        return "[%s; _]" % d(n["e"])
+    return k or "?"
